@@ -130,7 +130,9 @@ LEVEL_NOTE = ("PARTIAL: an exception is raised only BETWEEN atomic steps of the 
               "same-object re-entrant nesting.  Refuted variants are stated as witnesses: a SIGINT handler invisible to Python "
               "(getsignal() is None), a failing cursor query in CursorAwareWindow.__enter__ (leaves cbreak), a window nested "
               "in a FullscreenWindow body.  Trusted: the environment semantics (termios, fcntl, signal, lowest free "
-              "descriptor), Spec/Term.v, the tokeniser and the harness's snapshot code")
+              "descriptor), Spec/Term.v, the tokeniser and the harness's snapshot code.  Judged by the harness alone, outside "
+              "the model (whose contexts are all over a working terminal): in every scenario's process an Input.__enter__ over a "
+              "pipe is refused with termios.error and must leave SIGINT handler, wake-up descriptor and descriptor table as they were")
 TECHNIQUE = ("Coq: structural induction over program trees with a budget-indexed big-step semantics and a trace of "
              "environments (restore / no-leak / flags-outside-Nonblocking invariants), witnesses by kernel evaluation; in-Coq "
              "differential correspondence against the real managers on a pty in a forked child per scenario, with exceptions "
